@@ -175,6 +175,11 @@ def gen_case(rng):
             # F9 (known): with BOTH dimensions categorical-date the population proportion is the row proportion on
             # either orientation, so a sort keyed on population estimates is not mirrored; keep that known finding
             # confined to its own loci by not sorting on those keys there
+            # the column index is direction-specific with no row twin (excluded by the property itself)
+            for d in (rd, cd):
+                o = d.get("order")
+                if o and o.get("measure") == "col_index":
+                    o["measure"] = "count_unweighted"
             if vars_[0].kind == "cat_date" and vars_[1].kind == "cat_date":
                 for d in (rd, cd):
                     o = d.get("order")
